@@ -216,73 +216,63 @@ uint32
 match(uint32 nobjects1, dtable_t *list1, uint32 nobjects2, dtable_t *list2, int32 sd1_id, int32 gr1_id,
       int32 file1_id, int32 sd2_id, int32 gr2_id, int32 file2_id, diff_opt_t *opt)
 {
-    int            cmp;
-    int            more_names_exist = (nobjects1 > 0 && nobjects2 > 0) ? 1 : 0;
-    uint32         curr1            = 0;
-    uint32         curr2            = 0;
-    uint32         nfound           = 0;
-    match_table_t *mattbl           = NULL;
+    uint32         curr1;
+    uint32         curr2;
+    uint32         nfound = 0;
+    match_table_t *mattbl = NULL;
     int            infile[2];
     char           c1, c2;
     uint32         i;
+    char          *used2 = NULL; /* objects of list2 that have found their partner in list1 */
 
     /*-------------------------------------------------------------------------
-     * build the list
+     * build the list; the two lists are in file order, not sorted, so each
+     * object of list1 is looked up by name among the objects of list2 that
+     * have not been matched yet
      *-------------------------------------------------------------------------
      */
     match_table_init(&mattbl);
 
-    while (more_names_exist) {
-        cmp = strcmp(list1->objs[curr1].obj_name, list2->objs[curr2].obj_name);
-        if (cmp == 0) {
-            infile[0] = 1;
-            infile[1] = 1;
+    if (nobjects2 > 0) {
+        used2 = (char *)calloc(nobjects2, 1);
+        if (used2 == NULL) {
+            printf("Error: not enough memory to match the objects of the two files\n");
+            opt->err_stat = 1;
+            match_table_free(mattbl);
+            return 0;
+        }
+    }
+
+    for (curr1 = 0; curr1 < nobjects1; curr1++) {
+        for (curr2 = 0; curr2 < nobjects2; curr2++)
+            if (!used2[curr2] && strcmp(list1->objs[curr1].obj_name, list2->objs[curr2].obj_name) == 0)
+                break;
+
+        if (curr2 < nobjects2) {
+            used2[curr2] = 1;
+            infile[0]    = 1;
+            infile[1]    = 1;
             match_table_add(mattbl, infile, list1->objs[curr1].obj_name, list1->objs[curr1].tag,
                             list1->objs[curr1].ref, list2->objs[curr2].tag, list2->objs[curr2].ref);
-
-            curr1++;
-            curr2++;
-        }
-        else if (cmp < 0) {
-            infile[0] = 1;
-            infile[1] = 0;
-            match_table_add(mattbl, infile, list1->objs[curr1].obj_name, list1->objs[curr1].tag,
-                            list1->objs[curr1].ref, -1, -1);
-            curr1++;
         }
         else {
-            infile[0] = 0;
-            infile[1] = 1;
-            match_table_add(mattbl, infile, list2->objs[curr2].obj_name, -1, -1, list2->objs[curr2].tag,
-                            list2->objs[curr2].ref);
-            curr2++;
-        }
-
-        more_names_exist = (curr1 < nobjects1 && curr2 < nobjects2) ? 1 : 0;
-
-    } /* end while */
-
-    /* list1 did not end */
-    if (curr1 < nobjects1) {
-        while (curr1 < nobjects1) {
             infile[0] = 1;
             infile[1] = 0;
             match_table_add(mattbl, infile, list1->objs[curr1].obj_name, list1->objs[curr1].tag,
                             list1->objs[curr1].ref, -1, -1);
-            curr1++;
         }
     }
 
-    /* list2 did not end */
-    if (curr2 < nobjects2) {
-        while (curr2 < nobjects2) {
+    /* objects of list2 without a partner */
+    for (curr2 = 0; curr2 < nobjects2; curr2++)
+        if (!used2[curr2]) {
             infile[0] = 0;
             infile[1] = 1;
             match_table_add(mattbl, infile, list2->objs[curr2].obj_name, -1, -1, list2->objs[curr2].tag,
                             list2->objs[curr2].ref);
-            curr2++;
         }
-    }
+
+    free(used2);
 
     /*-------------------------------------------------------------------------
      * print the list
